@@ -418,18 +418,64 @@ class Project:
             except Exception:
                 raise KeyError(U(e))
             return list(v) if isinstance(v, range) else v
-        if isinstance(e, (ast.SetComp, ast.ListComp, ast.GeneratorExp)) and len(e.generators) == 1 and not e.generators[0].ifs \
-                and isinstance(e.generators[0].target, ast.Name):
-            var = e.generators[0].target.id
-            items = self.fold(m, e.generators[0].iter)
-            out_items = []
+        if isinstance(e, (ast.SetComp, ast.ListComp, ast.GeneratorExp)) and all(
+                isinstance(g.target, ast.Name) and not g.is_async for g in e.generators):
             import copy
-            for it in items:
+
+            def subst(node: ast.AST, env: dict[str, Any]) -> ast.AST:
                 class S(ast.NodeTransformer):
                     def visit_Name(self, n: ast.Name):
-                        return ast.copy_location(ast.Constant(value=it), n) if n.id == var else n
-                out_items.append(self.fold(m, S().visit(copy.deepcopy(e.elt))))
+                        if n.id in env:
+                            v = env[n.id]
+                            if isinstance(v, (list, tuple)):          # an inner iterable bound by an outer generator (a range)
+                                return ast.copy_location(ast.List(elts=[ast.Constant(value=x) for x in v], ctx=ast.Load()), n)
+                            return ast.copy_location(ast.Constant(value=v), n)
+                        return n
+                return S().visit(copy.deepcopy(node))
+            out_items: list[Any] = []
+            budget = [20000]
+
+            def run(k: int, env: dict[str, Any]) -> None:
+                if k == len(e.generators):
+                    out_items.append(self.fold(m, subst(e.elt, env)))
+                    return
+                g = e.generators[k]
+                items = self.fold(m, subst(g.iter, env))
+                for it in items:
+                    budget[0] -= 1
+                    if budget[0] < 0:
+                        raise KeyError("comprehension too large to fold")
+                    env2 = {**env, g.target.id: it}
+                    if all(self.fold(m, subst(c_, env2)) for c_ in g.ifs):
+                        run(k + 1, env2)
+            run(0, {})
             return set(out_items) if isinstance(e, ast.SetComp) else out_items
+        if isinstance(e, ast.Compare) and len(e.ops) == 1:
+            a, b = self.fold(m, e.left), self.fold(m, e.comparators[0])
+            op = e.ops[0]
+            try:
+                if isinstance(op, ast.Eq):
+                    return a == b
+                if isinstance(op, ast.NotEq):
+                    return a != b
+                if isinstance(op, ast.Lt):
+                    return a < b
+                if isinstance(op, ast.LtE):
+                    return a <= b
+                if isinstance(op, ast.Gt):
+                    return a > b
+                if isinstance(op, ast.GtE):
+                    return a >= b
+                if isinstance(op, ast.In):
+                    return a in b
+                if isinstance(op, ast.NotIn):
+                    return a not in b
+            except Exception:
+                raise KeyError(U(e))
+        if isinstance(e, ast.BinOp) and isinstance(e.op, (ast.BitOr, ast.Sub)):
+            a, b = self.fold(m, e.left), self.fold(m, e.right)
+            if isinstance(a, (set, frozenset)) and isinstance(b, (set, frozenset)):
+                return a | b if isinstance(e.op, ast.BitOr) else a - b
         raise KeyError(U(e))
 
     def regex_constants(self) -> list[tuple[Module, str, str, int, ast.AST]]:
